@@ -9,7 +9,7 @@ python3 - "$idx" "$tier" "$seed" > "$f" <<'PY'
 import json,sys
 idx,tier,seed=int(sys.argv[1]),sys.argv[2],int(sys.argv[3])
 kinds=["cq","batch","alias","handover","mix","reassign","cq","batch","mix","mix"]
-n,steps=(30,70) if tier=="quick" else (240,160)
+n,steps=(30,70) if tier=="quick" else (160,160)
 i=idx
 k=kinds[i%len(kinds)]
 p={"kind":k,"steps":steps+10*(i%4),"stakes":i//len(kinds),"chains":1+(i//3)%2}
